@@ -122,7 +122,7 @@ class CWorld(object):
         o = self.obj
         # composite: disable a source, change the values, enable it again (a disabled source must follow value changes too)
         if self.sources and self.sources[0][2]:
-            _chg = {"indexed": ("data", "alt"), "xy": ("y", "alt"), "hist": ("fill", 1), "indexed-model": ("pars", 1), "xy-model": ("pars", 1), "hist-model": ("pars", 1)}[o]
+            _chg = {"indexed": ("data", "alt"), "xy": ("y", "alt"), "hist": ("fill", 1) if not getattr(self, "manual", False) else ("setbins", 2), "indexed-model": ("pars", 1), "xy-model": ("pars", 1), "hist-model": ("pars", 1)}[o]
             ops.append(("around", self.sources[0][0], _chg))
             if o == "xy":
                 ops.append(("around", self.sources[0][0], ("data", "alt")))
@@ -132,7 +132,9 @@ class CWorld(object):
         elif o == "xy":
             ops += [("x", "alt"), ("y", "alt"), ("y", "mixed"), ("data", "alt"), ("data", "altT")]
         elif o == "hist":
-            ops += [("fill", 1), ("fill", 2), ("rebin", 2)]
+            if not getattr(self, "manual", False):
+                ops += [("fill", 1), ("fill", 2), ("rebin", 2)]  # refused once the bin contents were set by hand
+            ops += [("setbins", 1), ("setbins", 2)]
         elif o == "indexed-model" or o == "hist-model":
             ops += [("pars", 1), ("pars", 2)]
         elif o == "xy-model":
@@ -187,6 +189,11 @@ class CWorld(object):
                 c.fill(list(b))
                 self.entries = self.entries + list(b)
                 self.vals["y"] = hist_counts(self.entries, self.edges)
+            elif k == "setbins":
+                h = [7.0, 3.0, 9.0, 1.0, 4.0] if op[1] == 1 else [2.0, 8.0, 5.0, 6.0, 3.0]
+                c.set_bins(list(h), underflow=2, overflow=1)
+                self.manual = True
+                self.vals["y"] = np.array(h, dtype=float)
             elif k == "rebin":
                 c.rebin(list(HIST_EDGES2))
                 self.edges = HIST_EDGES2
